@@ -30,6 +30,9 @@ namespace PSC {
     public:
         const Token *switchToken = nullptr;
 
+        // Unique for the lifetime of the process; addresses may be reused, ids are not
+        const unsigned long id;
+
         const bool isFunctionCtx, isCompositeCtx;
         std::unique_ptr<NodeResult> returnValue;
         const PSC::DataType returnType;
